@@ -409,7 +409,7 @@ def _make_instance(cname, e, nm, **extra):
     if cname == "IndicatorBounds":
         kw["upper_bound"] = 40
     if cname == "IndicatorTarget":
-        kw["value"] = 3
+        kw["value"] = 4
     if cname in ("TasksEndSynced", "TasksStartSynced"):
         kw["task_2"] = e["t3"]
     if cname.startswith("ResourcePeriodically"):
